@@ -66,6 +66,16 @@ class MomentCoefficient(om.ExplicitComponent):
         self.declare_partials(of="*", wrt="*")
 
     def compute(self, inputs, outputs):
+        M = self._compute_moment(inputs)
+
+        # Output the moment vector
+        outputs["M"] = M
+
+        # Compute the normalized CM
+        outputs["CM"] = M / (0.5 * inputs["rho"] * inputs["v"] ** 2 * inputs["S_ref_total"] * self.MAC_wing)
+
+    def _compute_moment(self, inputs):
+        """Moment about the cg from the current inputs; also stores M and the MAC and area of the first surface."""
         cg = inputs["cg"]
 
         M = np.zeros((3))
@@ -118,12 +128,7 @@ class MomentCoefficient(om.ExplicitComponent):
                 self.S_ref_wing = S_ref
 
         self.M = M
-
-        # Output the moment vector
-        outputs["M"] = M
-
-        # Compute the normalized CM
-        outputs["CM"] = M / (0.5 * inputs["rho"] * inputs["v"] ** 2 * inputs["S_ref_total"] * self.MAC_wing)
+        return M
 
     def compute_partials(self, inputs, partials):
         cg = inputs["cg"]
@@ -131,8 +136,8 @@ class MomentCoefficient(om.ExplicitComponent):
         S_ref_total = inputs["S_ref_total"]
         v = inputs["v"]
 
-        # Cached values
-        M = self.M
+        # Recompute from the current inputs (the last compute() may have been at another point)
+        M = self._compute_moment(inputs)
         MAC_wing = self.MAC_wing
         S_ref_wing = self.S_ref_wing
 
